@@ -297,7 +297,18 @@ func (c *FnCtx) specEval(env *SpecEnv, e ast.Expr) *Val {
 			return r
 		case isArr(base.S):
 			_, vs := arrParts(base.S)
-			return &Val{T: tApp("select", base.T, idx.T), S: vs}
+			r := &Val{T: tApp("select", base.T, idx.T), S: vs}
+			// an abstract generic container (btree.Map[K, V]): the element has the type of its last type argument
+			if base.Typ != nil && vs == SInt {
+				bt := base.Typ
+				if p, ok := bt.Underlying().(*types.Pointer); ok {
+					bt = p.Elem()
+				}
+				if nt, ok := types.Unalias(bt).(*types.Named); ok && nt.TypeArgs() != nil && nt.TypeArgs().Len() > 0 {
+					r.Typ = nt.TypeArgs().At(nt.TypeArgs().Len() - 1)
+				}
+			}
+			return r
 		}
 		if base.Typ != nil {
 			if mt, ok := base.Typ.Underlying().(*types.Map); ok {
